@@ -530,7 +530,7 @@ TABLE = {
                                   "L:same-twice", "L:layered", "L:priors"]},
     "Spheres": {"scatterers": ["L:two", "L:tuple", "L:one", "L:layered",
                                "L:priors", "L:overlap", "L:single"],
-                "warn": [OMIT] + BOOL[1:] + ["True"]},
+                "warn": [OMIT] + BOOL[1:] + ["True", "None"]},
     "RigidCluster": {"spheres": ["Sp:two", "Sp:priors", "Sp:tuple",
                                  "Sp:three"],
                      "translation": ROT3, "rotation": ROT3},
@@ -560,14 +560,15 @@ TABLE = {
     "Multisphere": {"niter": [OMIT, "int40", "i64", "i32"],
                     "eps": [OMIT] + OPT, "meth": [OMIT, "int0", "i64"],
                     "qeps1": [OMIT] + OPT, "qeps2": [OMIT] + OPT,
-                    "compute_escat_radial": [OMIT, "True", "npTrue"],
-                    "suppress_fortran_output": [OMIT, "False", "npFalse"]},
+                    "compute_escat_radial": [OMIT, "True", "npTrue", "None"],
+                    "suppress_fortran_output": [OMIT, "False", "npFalse",
+                                                "None"]},
     "Lens": {"lens_angle": LENSANG,
              "theory": ["T:Mie", "T:Mie-opts", "T:Multisphere",
                         "T:Multisphere-opts", "T:Tmatrix", "T:Lens-Lens"],
              "quad_npts_theta": [OMIT, "int7", "i64", "i32"],
              "quad_npts_phi": [OMIT, "int7", "i64"],
-             "use_numexpr": [OMIT, "False", "True", "npFalse"]},
+             "use_numexpr": [OMIT, "False", "True", "npFalse", "None"]},
     "Tmatrix": {},
     "DDA": {"n_cpu": [OMIT], "use_gpu": [OMIT], "gpu_id": [OMIT],
             "max_dpl_size": [OMIT], "use_indicators": [OMIT],
